@@ -59,6 +59,7 @@ inductive Err
   | zero                          -- :159, :200
   | formula                       -- :208
   | null                          -- :333
+  | zRange                        -- atomicweight.c:31,37 (reached only with the repair C07-2)
   | outOfFuel                     -- model artefact: unreachable (`parseSimple` is given `length + 1` fuel)
   deriving Repr, DecidableEq
 
@@ -75,6 +76,7 @@ def Err.msg : Err → List Char
   | .zero => "Invalid chemical formula: zero subscript detected".toList
   | .formula => "Invalid chemical formula".toList
   | .null => "Compound cannot be NULL".toList
+  | .zRange => "Z out of range".toList
   | .outOfFuel => "MODEL: out of fuel".toList
 
 /-! ## First pass: xraylib-parser.c:70-112 -/
@@ -326,23 +328,47 @@ structure ParseOut where
 
 def cdiv (a b : Rat) : Option Rat := if b = 0 then none else some (a / b)
 
-def compoundParser (T : Tables) (l : Locale) (s : Option (List Char)) : ParseOut :=
+/-- Which of the three repairs proposed in notes/proposed_fixes/C07-{1,2,3}.diff the working tree contains.
+    `asIs` is the code as shipped.  The check determines the switches by probing the library built from the
+    working tree on three witnesses and then validates the choice by the full correspondence run.
+    * `localeFix`  (C07-1): `backup_locale = xrl_strdup(setlocale(LC_NUMERIC, NULL))` before switching, restored and freed;
+    * `weightFix`  (C07-2): the first loop of lines 353-356 calls `AtomicWeight(Z, error)` and returns NULL when it fails;
+    * `leakFix`    (C07-3): every exit of `CompoundParserSimple` goes through one `cleanup:` that frees what is allocated
+                   (modelled coarsely: nothing is left behind). -/
+structure Variant where
+  localeFix : Bool
+  weightFix : Bool
+  leakFix : Bool
+  deriving Repr, DecidableEq
+
+def asIs : Variant := ⟨false, false, false⟩
+
+def compoundParser (v : Variant) (T : Tables) (l : Locale) (s : Option (List Char)) : ParseOut :=
   match s with
   | none => ⟨.error .null, 0, l⟩                                                        -- :332-335
   | some s =>
-    let r1 := setlocaleNumeric l (some ['C'])                                      -- :338 backup_locale = the NEW name
+    -- :338 as shipped: backup_locale = setlocale(LC_NUMERIC, "C") = the NEW name;
+    -- C07-1: backup_locale = strdup(setlocale(LC_NUMERIC, NULL)), then setlocale(LC_NUMERIC, "C")
+    let r0 := setlocaleNumeric l none
+    let r1 := setlocaleNumeric l (some ['C'])
+    let backup := if v.localeFix then r0.1 else r1.1
     -- :340 compoundStringCopy (1 block)
     let rv := parseSimple T (s.length + 1) s                                            -- :342
-    let r2 := setlocaleNumeric r1.2 r1.1                                                -- :344
+    let r2 := setlocaleNumeric r1.2 backup                                              -- :344 (C07-1: free(backup_locale))
     match rv with
     | .ok (ca, leaked) =>                                                               -- :346-367
+      let leaked := if v.leakFix then 0 else leaked
+      if v.weightFix && ca.any (fun e => atomicWeight T e.1 = 0) then
+        ⟨.error .zRange, leaked, r2.2⟩                  -- C07-2: everything allocated here is freed again
+      else
       let sum := ca.foldl (fun acc e => acc + atomicWeight T e.1 * e.2) 0               -- :353-356
       let all := ca.foldl (fun acc e => acc + e.2) 0
       ⟨.ok { elements := ca.map (·.1), nAtoms := ca.map (·.2),
              massFractions := ca.map (fun e => cdiv (atomicWeight T e.1 * e.2) sum),   -- :359
              nAtomsAll := all, molarMass := sum },
        leaked + 4, r2.2⟩                                  -- cd + 3 arrays; ca.singleElements and the copy freed
-    | .error f => ⟨.error f.err, f.leak, r2.2⟩           -- :368-373 frees ca.singleElements (if any) and the copy
+    | .error f =>                                        -- :368-373 frees ca.singleElements (if any) and the copy
+      ⟨.error f.err, if v.leakFix then 0 else f.leak, r2.2⟩
 
 /-- live blocks after `FreeCompoundData` (4 frees) -/
 def liveAfterFree (o : ParseOut) : Nat :=
